@@ -38,6 +38,8 @@ def main():
         "b_empty": b"", "b_bin": bytes(range(256)), "ba": bytearray(b"abc"),
         "none": None, "int": 12345678901234567890, "list": [1, "a", None, 2.5], "dict": {"a": [1, 2], "b": None},
         "df": pd.DataFrame({"a": [1, 2, 3], "b": ["x", "y", "é"]}), "df_empty": pd.DataFrame({"a": []}),
+        "df_filtered": pd.DataFrame({"a": [1, 2, 3, 4]})[lambda d: d.a % 2 == 0], "df_labels": pd.DataFrame({"v": [1.5, 2.5]}, index=["alpha", "bêta"]),
+        "df_named_index": pd.DataFrame({"k": ["x", "y"], "v": [1, 2]}).set_index("k"),
     }
     tmp = tempfile.mkdtemp(prefix="dds_b_codec_")
     violations, evals = [], 0
@@ -114,7 +116,7 @@ def main():
         code = (
             "import sys, json, pickle\nfrom dds.store import LocalFileStore\n"
             "st = LocalFileStore(sys.argv[1], sys.argv[2])\nout = {}\n"
-            "for k in json.loads(sys.argv[3]):\n    v = st.fetch_blob(k)\n    out[k] = repr(v)[:50] if not hasattr(v, 'equals') else 'DF%d' % len(v)\nprint(json.dumps(out))\n"
+            "for k in json.loads(sys.argv[3]):\n    v = st.fetch_blob(k)\n    out[k] = repr(v)[:50] if not hasattr(v, 'equals') else 'DF%d %s %s' % (len(v), list(v.index), list(v.index.names))\nprint(json.dumps(out))\n"
         )
         keys = [k for k in vals]
         out = None
@@ -135,7 +137,7 @@ def main():
             raise RuntimeError("the reader process died three times without a Python error: " + p.stderr[-300:])
         else:
             for k, v in vals.items():
-                exp = repr(v)[:50] if not hasattr(v, "equals") else "DF%d" % len(v)
+                exp = repr(v)[:50] if not hasattr(v, "equals") else "DF%d %s %s" % (len(v), list(v.index), list(v.index.names))
                 if out.get(k) != exp and not isinstance(v, bytearray):
                     violations.append({"what": "%s: fresh process read %s, expected %s" % (k, out.get(k), exp)})
     finally:
